@@ -432,6 +432,12 @@ def gen_tasks(tier, seed):
         ("MinPathCover", {"edges": [("a", "b"), ("a", "c"), ("b", "d"), ("c", "d"), ("a", "d")], "kwargs": {}}),
         ("MinPathCoverCycles", {"edges": [("s", "a"), ("s", "b"), ("a", "a"), ("b", "b"), ("a", "t"), ("b", "t")], "kwargs": {}}),
         ("MinGenSet", {"numbers": [1, 2, 4, 8], "total": 15}),
+        # single k-models (one solver invocation): solved only if that run proved optimality
+        ("kFlowDecomp", {"edges": [("a", "b", 2), ("b", "c", 1), ("a", "c", 1), ("c", "d", 2), ("b", "d", 1)], "kwargs": {"k": 3, "weight_type": "int", "optimization_options": {"optimize_with_greedy": False}}}),
+        ("kMinPathError", {"edges": [("a", "b", 2), ("b", "c", 1), ("a", "c", 3), ("c", "d", 2), ("b", "d", 1)], "kwargs": {"k": 2, "weight_type": "int"}}),
+        ("kLeastAbsErrorsCycles", {"edges": [("s", "a", 1), ("a", "b", 3), ("b", "a", 2), ("b", "t", 1)], "kwargs": {"k": 1, "weight_type": "int"}}),
+        ("kPathCoverCycles", {"edges": [("s", "a"), ("a", "b"), ("b", "a"), ("b", "t")], "kwargs": {"k": 1}}),
+        ("MinSetCover", {"universe": [1, 2, 3], "subsets": [[1, 2], [2, 3], [3]]}),
         # two-phase solve (few distinct flow values): an inconclusive second phase must leave the model unsolved and the getters raising
         ("MinErrorFlow", {"edges": [("s", "a", 5), ("a", "b", 3), ("a", "c", 4), ("b", "t", 3), ("c", "t", 1)], "kwargs": {"weight_type": "int", "few_flow_values_epsilon": 0.5}}),
     ]
@@ -518,6 +524,9 @@ def _inject_task(task, res):
         if cls == "MinGenSet":
             import flowpaths as fp
             return fp.MinGenSet(task["spec"]["numbers"], total=task["spec"]["total"], weight_type=int, **({"solver_options": dict(so)} if so else {}))
+        if cls == "MinSetCover":
+            import flowpaths as fp
+            return fp.MinSetCover(task["spec"]["universe"], task["spec"]["subsets"], **({"solver_options": dict(so)} if so else {}))
         t = {"cls": cls, "edges": task["spec"]["edges"], "kwargs": {**task["spec"]["kwargs"], **({"solver_options": dict(so)} if so else {})}}
         return models.construct(t)[0]
     with hx.capture() as sess:
